@@ -95,7 +95,7 @@ package didsubject
 // One operation, one change set: every change record an operation hands to transactionHelper carries the
 // SAME transaction id. That id is what makes the records of the subject's DIDs one unit - the clean-up
 // deletes the records of one id, and the sweep keeps or undoes the versions of one id together.
-//@ func (*SqlDIDManager).FindBySubject
+//@ func (SqlDIDManager).FindBySubject
 //@   trusted
 //@   benign
 //@ func (*SqlDIDDocumentManager).Latest
@@ -112,6 +112,20 @@ package didsubject
 //@   call mapupdate #1 requires [record-describes-the-version-just-written] arg(0) == eventLog && arg(2).DIDDocumentVersionID == next.ID && arg(2).Type == orm.DIDChangeUpdated
 //@        && next == ret(call (*SqlDIDDocumentManager).CreateOrUpdate #1).0 && isNilIface(ret(call (*SqlDIDDocumentManager).CreateOrUpdate #1).1)
 //@   ensures [one-transaction-id-for-all-dids-of-the-operation] isNilIface(result.1) ==> (forall a string :: (forall b string :: a in result.0 && b in result.0 ==> result.0[a].TransactionID == result.0[b].TransactionID))
+//@   ensures [any-failure-abandons-the-operation] (did(call (*SqlDIDDocumentManager).CreateOrUpdate #1) && !isNilIface(ret(call (*SqlDIDDocumentManager).CreateOrUpdate #1).1)) ==> !isNilIface(result.1)
+//@ func (MethodManager).NewDocument
+//@   trusted
+//@   benign
+//@   ensures isNilIface(result.1) ==> result.0 != nil
+//@ func (*SqlManager).Create$1
+//@   prop C13
+//@   loop 2 invariant forall m string :: m in changes ==> changes[m].TransactionID == ret(call (uuid.UUID).String #1)
+//@   call mapupdate #3 requires [record-describes-the-version-just-written] arg(0) == changes && arg(2).DIDDocumentVersionID == createdDoc.ID && arg(2).Type == orm.DIDChangeCreated
+//@        && createdDoc == ret(call (*SqlDIDDocumentManager).CreateOrUpdate #1).0 && isNilIface(ret(call (*SqlDIDDocumentManager).CreateOrUpdate #1).1)
+//@   ensures [one-transaction-id-for-all-dids-of-the-operation] isNilIface(result.1) ==> (forall a string :: (forall b string :: a in result.0 && b in result.0 ==> result.0[a].TransactionID == result.0[b].TransactionID))
+// (errors.Is(nil, ErrSubjectNotFound) is false in Go; the engine does not know that, hence the second conjunct)
+//@   ensures [an-existing-subject-is-not-created-again] isNilIface(ret(call (SqlDIDManager).FindBySubject #1).1) && !errors.Is(ret(call (SqlDIDManager).FindBySubject #1).1, ErrSubjectNotFound)
+//@        ==> result.1 == ErrSubjectAlreadyExists && !did(call (*SqlDIDDocumentManager).CreateOrUpdate #1) && !did(call (MethodManager).NewDocument #1)
 //@   ensures [any-failure-abandons-the-operation] (did(call (*SqlDIDDocumentManager).CreateOrUpdate #1) && !isNilIface(ret(call (*SqlDIDDocumentManager).CreateOrUpdate #1).1)) ==> !isNilIface(result.1)
 //@ func (*SqlManager).Deactivate$1
 //@   prop C13
